@@ -47,6 +47,14 @@ ZERO_W = ['{[#A][#B]}.{#A=[C;w=0]C[$],#B=[$]CO}', '{[#A]}.{#A=[C;w=0]C[O;w=0]}',
           '{[#A][#B]}.{#A=[$]C[O;w=0.5],#B=[$][C;w=0][C;w=0.25]}', '{[#A][#B]}.{#A=[C;w=0]C[$],#B=[$][N;w=0]C}',
           '{[#A][#B][#A]}.{#A=[$][C;w=0]O,#B=[$]C[C;w=0][$]}', '{[#A]}.{#A=[C;w=0]}', '{[#A][#B]}.{#A=[$][N;w=0][C;w=2.5],#B=[$]c1ccccc1}',
           '{[#A][#B]}.{#A=[O;w=0]C[!],#B=[!]C[C;w=0]}']
+# a ZERO-ORDER bond between two fragments (both descriptors carry `.`): metal / ligand, in both bead orders, so that
+# the metal atom precedes the ligand atom in one and follows it in the other
+ZERO_BOND = ['{[#M][#L]}.{#L=CS(C).[$],#M=.[$][Cu+]}', '{[#L][#M]}.{#L=CS(C).[$],#M=.[$][Cu+]}',
+             '{[#M][#L]}.{#L=CP(C)(C).[$],#M=.[$][Cu+]}', '{[#L][#M]}.{#L=CP(C)(C).[$],#M=.[$][Cu+]}',
+             '{[#M][#L]}.{#L=CC(=O)[O-].[$],#M=.[$][Na+]}', '{[#L][#M]}.{#L=CC(=O)[O-].[$],#M=.[$][Na+]}',
+             '{[#M][#L]}.{#L=CN(C).[$],#M=.[$][Cu+]}', '{[#L][#M]}.{#L=CN(C).[$],#M=.[$][Cu+]}',
+             '{[#M][#L]}.{#L=CO.[$],#M=.[$][Na+]}', '{[#L][#M]}.{#L=CO.[$],#M=.[$][Na+]}',
+             '{[#L][#M][#L]}.{#L=CS(C).[$],#M=.[$][Cu+].[$]}']
 WEIGHTS = [0.5, 2.0, 12.011, 1.008, 0.25, 3, 1, 1, 0]
 
 
@@ -59,6 +67,8 @@ def rand_cgsmiles(rng, small=True):
         return rng.choice(FIXED)
     if r < 0.3:
         return rng.choice(MULTI)
+    if r < 0.38:
+        return rng.choice(ZERO_BOND)
     nmid = rng.randint(0, 2 if small else 4)
     frags = {}
     names = []
@@ -238,6 +248,12 @@ class C18(common.Prop):
             {'kind': 'embed', 's': '{[#A].[#B]}.{#A=CCO,#B=O}', 'variant': 'implicit_h', 'perm': []},
             {'kind': 'embed', 's': '{[#A].[#B]}.{#A=CCO,#B=O}', 'variant': 'sorted', 'perm': []},
             {'kind': 'round', 's': '{[#A]}.{#A=CCO}', 'variant': 'asis', 'perm': [], 'conf': True, 'seed': 7},
+            {'kind': 'round', 's': ZERO_BOND[0], 'variant': 'asis', 'perm': [], 'conf': False, 'seed': 7},
+            {'kind': 'round', 's': ZERO_BOND[1], 'variant': 'asis', 'perm': [], 'conf': False, 'seed': 7},
+            {'kind': 'round', 's': ZERO_BOND[2], 'variant': 'sorted', 'perm': [], 'conf': False, 'seed': 7},
+            {'kind': 'round', 's': ZERO_BOND[4], 'variant': 'asis', 'perm': [], 'conf': False, 'seed': 7},
+            {'kind': 'round', 's': ZERO_BOND[5], 'variant': 'asis', 'perm': [], 'conf': True, 'seed': 7},
+            {'kind': 'round', 's': ZERO_BOND[6], 'variant': 'implicit_h', 'perm': [], 'conf': False, 'seed': 7},
             {'kind': 'round', 's': '{[#A]}.{#A=CCO}', 'variant': 'asis', 'perm': [], 'conf': False, 'seed': 7},
             {'kind': 'round', 's': '{[#A][#B]}.{#A=[$]CO,#B=[$]CC}', 'variant': 'asis', 'perm': [], 'conf': False, 'seed': 7},
             {'kind': 'fwd', 's': '{[#A][#B]}.{#A=[$]C[O;w=0.5],#B=[$][C;w=2]C}', 'weights': None, 'seed': 3,
